@@ -14,7 +14,7 @@ T = "SMT-based bounded symbolic execution of the real code from go/ssa"
 
 CLAIMED = {
  "C01": {"technique": T + " (implicit no-panic obligations: bounds, nil, division, type assertion, explicit panic, callee contracts)",
-  "text": "Every operator node and every function-table entry (all argument counts its bounds accept), with receiver and arguments ranging over every value form with full-width symbolic payloads, returns a collection or an error: the solver shows no index/slice/nil/division/assertion/panic site is reachable, or produces the input. Field navigation is covered for harness-built resources of symbolic shape (see C02); string-literal decoding for every body the lexer lets through; termination through the unwinding bound plus 'hang' candidates replayed under a time limit. Compile's ANTLR front end and Patch are outside the claim.",
+  "text": "Every operator node and every function-table entry (all argument counts its bounds accept), with receiver and arguments ranging over every value form with full-width symbolic payloads, returns a collection or an error: the solver shows no index/slice/nil/division/assertion/panic site is reachable, or produces the input. Field navigation is covered for harness-built resources of symbolic shape (see C02); string-literal decoding for every body the lexer lets through; termination through the unwinding bound plus 'hang' candidates replayed under a time limit. The parse-tree visitor is executed over hand-built trees for operators, polarity, literals and calls (C06, C07, C16, C17 harnesses of package parser); the ANTLR recogniser (text to tree) and Patch are outside the claim.",
   "design_ref": "DESIGN.md §4 C01", "note": BASE_NOTE},
  "C02": {"technique": T + " (protoreflect reads answered from the generated struct types; resource shape symbolic; the message tree stands in for the JSON tree)",
   "text": "Reduced scope, stated: the real TypeExpression / FieldExpression / IndexExpression are executed over harness-built Patient and Observation messages of symbolic shape (0..2 repetitions at each repeated level, optional elements present or absent, each variant of the choice elements). Dotted paths yield exactly the message's own nodes at that path, in document order, repeated elements flattened, absent ones contributing nothing; choice elements yield the chosen value; typed, untyped and fragment references read back through `reference` as Type/id[/_history/vid], the URI and #id; `.value` of primitives yields the denoted System value; proto-only fields are not reachable; unknown names are errors. Outside the claim: every other R4 resource type (the model handles any generated message, the harnesses build two), the google/fhir JSON mapping itself (the message tree is taken as the JSON tree), contained resources and Bundle entries (protoreflect-based unwrapping), extensions.",
@@ -56,7 +56,7 @@ CLAIMED = {
   "text": "narrow.ToInteger for all 11x11 integer type pairs over the full value range; fhirconv.ToInteger; fhir.TimeOfDay/Time/extractTimezone and fhirconv.TimeToString field round trips for every value. String-literal escapes incl. \\uXXXX; proto<->System round trips (Date/DateTime/Time for every precision enum and zone spelling, Decimal, Integer, Quantity); Time/DateTime literals with 0-4 fraction digits re-parse from their canonical text to an equal value (no hidden sub-second state).",
   "design_ref": "DESIGN.md §4 C15", "note": BASE_NOTE},
  "C16": {"technique": T + " (function table obtained by executing the package initialiser; finite table checks pushed through the same pipeline)",
-  "text": "For every entry of the base+experimental table and every accepted argument count: no arity error; every specification name present with bounds admitting its specified counts; each name bound to the implementation of that name; unimplemented names fail explicitly. Compile's own arity test (ANTLR contexts) is outside the claim.",
+  "text": "For every entry of the base+experimental table and every accepted argument count: no arity error; every specification name present with bounds admitting its specified counts; each name bound to the implementation of that name; unimplemented names fail explicitly. Compile's own acceptance test is decided too: the parse-tree visitor's VisitFunction is executed over hand-built parse trees (every table entry, 0..max+1 arguments, function and method form, six places in an expression; a custom function likewise). The ANTLR recogniser that turns text into that tree is outside the claim.",
   "design_ref": "DESIGN.md §4 C16", "note": BASE_NOTE},
  "C17": {"technique": T + " (option lists with symbolic names; reflect model for custom functions)",
   "text": "Evaluate with up to 2/3 EnvVariable options with symbolic names and every value kind: ErrExistingConstant / ErrUnsupportedType exactly when due, nothing evaluated on option error, variables evaluate to the supplied value, %context/%ucum, unknown variable is an error; custom function registration and wrapper behaviour for a menu of signatures.",
